@@ -93,6 +93,19 @@ CHECKS = {
         "note": "Trusted: Python ast, E1 resolver, EFFECT engine tables. A genuine defect found by the short-circuit rule was repaired (fix 95ddc1d).",
         "technique": "static analysis: interprocedural effect / ownership analysis for writes to preload slots; provenance table extracted from setters + site classification of every slot read; factory wiring rules",
     },
+    "C05": {
+        "text": "Decides partial correctness of the solvers, for every system and every combination of the solver settings: (solve) both entry points receive (F+H, D) in that order, LinAlgError / RuntimeError / ValueError become "
+                "InversionException, `reconstruction` dispatches on use_positive_only_solver with the inversion's own system and settings, the warm start is the positive set of the unconstrained solution of the same system; (reduce) forced-zero "
+                "parameters are removed from D and from both axes of F+H by one boolean selector and the solution is scattered back through it onto zeros, per-mapper pixel indices are shifted by param_range[0] exactly once; (data) both model-data "
+                "kernels equal sum_j s_j M[i,j] as canonical forms over full ranges, slices of s advance by params of every object in list order, each object's model data is built from its own matrix / mappings and its own slice, the total "
+                "is their sum; (state) fnnls_cholesky explored exhaustively as a finite typestate system (gradient w fresh w.r.t. d, d = copy of the least-squares solution on a passive set where it is positive and zero elsewhere, Cholesky "
+                "factor rebuilt or updated for every change of the ordered passive list, P and the list in step) at every evaluation of the loop condition and at return, plus the contract of fix_constraint_cholesky; (chol) update / downdate "
+                "kernels equal the Givens recurrences as canonical forms, insertion and deletion follow the block algebra of an upper-triangular factor. With these invariants, leaving the loop through its condition is the KKT certificate. "
+                "Not decided: termination, the max_repetitions stall exit, conditioning and floating-point error of scipy's solve / cholesky / cho_solve - i.e. optimality 'to numerical precision' itself.",
+        "note": "Trusted: Python ast, E1 resolver, KEval; the Lawson-Hanson argument from invariants to KKT is mathematics, not checked by machine. A genuine defect (invalid warm start, non-optimal results for ~5-25% of systems with negative "
+                "unconstrained entries) was found while building the state rule and repaired (fix a8b36c1); the rule reports the pre-fix code.",
+        "technique": "static analysis: exhaustive exploration of a finite typestate abstraction of the active-set loop; canonical-form equality of kernels; call-site wiring and error-discipline rules",
+    },
     "C08": {
         "text": "Decides, for every dataset / mask / model: each of the 21 fit_util functions equals its definition as a canonical form (data - model, (r/n)^2, sum log(2 pi n^2), -(chi2+norm)/2, residual/data, "
                 "evidence polarities -1/2(chi2 + sHs + logdet(F+H) - logdet(H) + norm)); every _with_mask_ variant restricts EVERY array operand by mask == 0 (where= + zero out=, or boolean selection) so masked values cannot reach a sum; "
